@@ -7,6 +7,7 @@ import (
 	"math/rand"
 	"os"
 	"path/filepath"
+	"sync"
 
 	"github.com/Flowpack/prunner/store"
 
@@ -174,6 +175,79 @@ func saveFidelity(root string, seed int64, tier string) (res *CaseResult) {
 		if len(res.Findings) > 5 {
 			break
 		}
+	}
+	return res
+}
+
+// multiStore: several store instances in ONE process (several embedded runners), each on its own directory, saving and
+// loading at the same time. Every file must hold exactly the last snapshot that ITS store acknowledged: snapshots are
+// self-describing (store index, generation, job count), so foreign or mixed content is recognisable.
+func multiStore(root string, seed int64, tier string) (res *CaseResult) {
+	res = &CaseResult{}
+	defer func() {
+		if p := recover(); p != nil {
+			res.Findings = append(res.Findings, drv.Finding{Props: []string{"C09"}, Sig: "C09:store-panicked", Detail: fmt.Sprintf("Save / Load panicked with several stores in one process: %v", p), Step: -1})
+		}
+	}()
+	nStores, gens := 8, 60
+	if tier == "thorough" {
+		gens = 1200
+	}
+	var mu sync.Mutex
+	var wg sync.WaitGroup
+	for si := 0; si < nStores; si++ {
+		wg.Add(1)
+		go func(si int) {
+			defer wg.Done()
+			dir := filepath.Join(root, fmt.Sprintf("multi-%d", si))
+			st, err := store.NewJSONDataStore(dir)
+			if err != nil {
+				return
+			}
+			r := rand.New(rand.NewSource(seed*131 + int64(si)))
+			for g := 1; g <= gens; g++ {
+				n := 1 + r.Intn(40)
+				d := genSnapshot(seed+int64(si), 10+g%3, n) // (generations 10..12 carry no unencodable value)
+				for i := range d.Jobs {
+					d.Jobs[i].Pipeline = fmt.Sprintf("store-%d-gen-%d-of-%d", si, g, len(d.Jobs))
+				}
+				if err := st.Save(d); err != nil {
+					mu.Lock()
+					res.Findings = append(res.Findings, drv.Finding{Props: []string{"C09"}, Sig: "C09:save-of-encodable-snapshot-failed", Detail: fmt.Sprintf("store %d generation %d: %v", si, g, err), Step: g})
+					mu.Unlock()
+					return
+				}
+				got, lerr := st.Load()
+				mu.Lock()
+				res.Evaluations++
+				bad := ""
+				switch {
+				case lerr != nil:
+					bad = "does not load: " + lerr.Error()
+				case len(got.Jobs) != len(d.Jobs):
+					bad = fmt.Sprintf("holds %d jobs, the acknowledged snapshot had %d", len(got.Jobs), len(d.Jobs))
+				default:
+					for i := range got.Jobs {
+						if got.Jobs[i].Pipeline != d.Jobs[i].Pipeline {
+							bad = fmt.Sprintf("job %d is %q, the acknowledged snapshot says %q", i, got.Jobs[i].Pipeline, d.Jobs[i].Pipeline)
+							break
+						}
+					}
+				}
+				if bad != "" && len(res.Findings) < 10 {
+					res.Findings = append(res.Findings, drv.Finding{Props: []string{"C09"}, Sig: "C09:load-after-save-returns-another-snapshot", Detail: fmt.Sprintf("%d stores save concurrently in one process, each in its own directory: after store %d acknowledged generation %d its file %s", nStores, si, g, bad), Step: g})
+				}
+				mu.Unlock()
+				if bad != "" {
+					return
+				}
+			}
+		}(si)
+	}
+	wg.Wait()
+	res.Situations = []string{fmt.Sprintf("%d stores in one process saving concurrently", nStores)}
+	for si := 0; si < nStores; si++ {
+		_ = os.RemoveAll(filepath.Join(root, fmt.Sprintf("multi-%d", si)))
 	}
 	return res
 }
